@@ -848,7 +848,11 @@ class CodeGen:
 
     def st_array(self, s):
         nm = self.new_var("A")
-        if s.get("nest"):
+        if s.get("template"):
+            # all rows built from one and the same Python list object
+            self.emit("_tpl_%s = [%s]" % (nm, ", ".join(self.ex(x) for x in s["template"])))
+            src = "Array([Array(_tpl_%s) for _k in range(%d)])" % (nm, s["n"])
+        elif s.get("nest"):
             def nest(x):
                 if isinstance(x, list):
                     return "Array([%s])" % ", ".join(nest(y) for y in x)
@@ -1243,12 +1247,25 @@ class CodeGen:
         self.wrap_try(s, lambda: self.emit("%s = importcomm(%r)[0]" % (nm, s["name"])), "%s = %s" % (nm, fb))
         self.step({"kind": "importcomm", "desc": {"op": "importcomm"}})
 
-    def schema_src(self, sc):
+    def schema_src(self, sc, shared=None):
         k = sc[0]
         if k == "bool":
             return "PackBool()"
         if k == "int":
             return "PackIntMod(%d)" % sc[1]
+        if k == "list" and self.plan["cfg"].get("share_packers"):
+            # equal fields of one list are ONE packer object used at several positions (coord = PackIntMod(1024);
+            # PackList([coord, coord]))
+            parts, seen = [], {}
+            for x in sc[1]:
+                key = json.dumps(x)
+                if key in seen:
+                    parts.append(seen[key])
+                else:
+                    self.pk_n = getattr(self, "pk_n", 0) + 1
+                    seen[key] = "_pk_s%d" % self.pk_n
+                    parts.append("(%s := %s)" % (seen[key], self.schema_src(x)))
+            return "PackList([%s])" % ", ".join(parts)
         if k == "list":
             return "PackList([%s])" % ", ".join(self.schema_src(x) for x in sc[1])
         if k == "rep":
@@ -1328,7 +1345,8 @@ class CodeGen:
 
 def plan_digest(plan):
     import hashlib
-    return hashlib.sha256(json.dumps(plan, sort_keys=True).encode()).hexdigest()[:16]
+    from . import bigjson
+    return hashlib.sha256(bigjson.dumps(plan, sort_keys=True).encode()).hexdigest()[:16]
 
 
 def count_stmts(body):
